@@ -264,7 +264,7 @@ def ts(t):
     if k == "cond":
         return f"({ts(t['a'])} extends {ts(t['b'])} ? {ts(t['x'])} : {ts(t['y'])})"
     if k == "mapped":
-        opt = "?" if t.get("opt") else ""
+        opt = "+?" if t.get("plus") else "?" if t.get("opt") else ""
         return f"{{ [{t.get('kv', 'K')} in {ts(t['keys'])}]{opt}: {ts(t['v'])} }}"
     if k == "typeof":
         return f"typeof {t['n']}"
